@@ -216,10 +216,10 @@ func check(prop, tier string) int {
 		all = append(all, sel...)
 	}
 	workers := 14
+	startLoad := 0.0 // 1-minute load average before this check starts solving (its own solvers are not in it yet)
 	if b, err := os.ReadFile("/proc/loadavg"); err == nil {
-		var l1 float64
-		fmt.Sscanf(string(b), "%f", &l1)
-		if l1 > 24 {
+		fmt.Sscanf(string(b), "%f", &startLoad)
+		if startLoad > 24 {
 			workers = 4 // the machine is busy (other checks running side by side): fewer solver races at once
 		}
 	}
@@ -245,12 +245,7 @@ func check(prop, tier string) int {
 				}
 			}
 		}
-		busy := false
-		if b, err := os.ReadFile("/proc/loadavg"); err == nil {
-			var l1 float64
-			fmt.Sscanf(string(b), "%f", &l1)
-			busy = l1 > 12
-		}
+		busy := startLoad > 8
 		// only when the machine is busy: on an idle machine a timeout is what it says
 		if busy && len(again) > 0 && len(again) <= 12 {
 			var obs []*vc.Obligation
